@@ -321,6 +321,8 @@ func CheckFrame(r *RPC, before, after map[core.TractID]tractserver.VerifReplica,
 			}
 			if a.Version != r.Version || a.Version < b.Version {
 				bad = append(bad, Bad{Sig: "frame-setversion-wrong-version", What: "SetVersion left a version that is neither the old nor the requested one", Detail: det})
+			} else if a.Version > b.Version+1 {
+				bad = append(bad, Bad{Sig: "frame-setversion-jumped", What: "SetVersion raised a version by more than one", Detail: det})
 			}
 		case KPullTract:
 			if !oka {
@@ -328,6 +330,9 @@ func CheckFrame(r *RPC, before, after map[core.TractID]tractserver.VerifReplica,
 			}
 			if a.Version != r.Version {
 				bad = append(bad, Bad{Sig: "frame-pull-wrong-version", What: "PullTract left a replica at a version other than the requested one", Detail: det})
+			}
+			if okb && a.Version < b.Version {
+				bad = append(bad, Bad{Sig: "frame-pull-lowered-version", What: "PullTract replaced a replica by a copy with an older version", Detail: det})
 			}
 			// must be a copy of one of the sources as they are now
 			match := false
